@@ -671,7 +671,7 @@ static void op_exptmod(T *t)
     if (snext(t) % 40 == 0) { vp->d[0] &= ~1ULL; even = 1; }
     val_to_mpz(ZC, vp);
     /* exponent, 1 <= x < p */
-    xk = (int) (snext(t) % 10);
+    xk = (int) (snext(t) % 11);
     switch (xk) {
     case 0: mpz_set_ui(ZB, 1); break;
     case 1: mpz_set_ui(ZB, 2); break;
@@ -680,6 +680,7 @@ static void op_exptmod(T *t)
     case 4: mpz_set_ui(ZB, 1); mpz_mul_2exp(ZB, ZB, vnext(t) % (64 * n - 1)); break;                   /* 2^k */
     case 5: mpz_set_ui(ZB, 1); mpz_mul_2exp(ZB, ZB, 1 + vnext(t) % (64 * n - 1)); mpz_sub_ui(ZB, ZB, 1); break; /* all ones */
     case 6: mpz_sub_ui(ZB, ZC, 1); break;                                                                  /* p-1 */
+    case 9: mpz_set_ui(ZB, 0); break;     /* outside the documented contract ("x must be positive"): observed, not judged */
     case 7: { int xd = 1 + (int) (snext(t) % 4); val_t *x = &t->vb; gen_val(t, x, xd, K_DENSE, 0); val_to_mpz(ZB, x); break; } /* short (DH-like) */
     default: { val_t *x = &t->vb; gen_val(t, x, n, K_DENSE, 0); val_to_mpz(ZB, x); mpz_mod(ZB, ZB, ZC); if (mpz_sgn(ZB) == 0) mpz_set_ui(ZB, 5); break; }
     }
@@ -707,14 +708,17 @@ static void op_exptmod(T *t)
     mkobj(&op, vp, pick_extra(t));
     if (t->alias == AL_CA) t->pc = t->pa; else { mkstale(t, &t->oc, t->stale, n); t->has_c = 1; t->pc = &t->oc; }
     {
-        static const char *xn[] = { "1", "2", "3", "65537", "2^k", "2^k-1", "p-1", "short", "random<p", "random<p" };
+        static const char *xn[] = { "1", "2", "3", "65537", "2^k", "2^k-1", "p-1", "short", "random<p", "0", "random<p" };
         static const char *gn[] = { "0", "1", "2", "p-1", "longer-than-p", "shorter", "g==p", "p<=g<2^bits", "random<p", "random<p" };
         snprintf(t->extra, sizeof t->extra, "pbits=%d x=%s g=%s%s", 64 * n, xn[xk], gn[gk], even ? " even-modulus" : "");
     }
     if (!even) mpz_powm(ZE, ZA, ZB, ZC);
     if (CALL(t, pstm_exptmod(NULL, t->pa, t->pb, &op, t->pc))) {
         if (even) { mpz_powm(ZE, ZA, ZB, ZC); }
-        if (!check_obj(t, "result", t->pc, ZE, 0)) sample(t, ZE);
+        if (xk == 9) {
+            if (t->pc->used <= t->pc->alloc) { obj_to_mpz(ZG, t->pc); if (mpz_cmp(ZG, ZE)) stat_add("soft_exptmod_zero_exponent_not_one", 1); }
+        }
+        else if (!check_obj(t, "result", t->pc, ZE, 0)) sample(t, ZE);
         inputs_unchanged(t);
         check_input(t, "modulus", &op, ZC);
     }
